@@ -133,7 +133,7 @@ class Check:
         c = {'rule': self.rule, 'samples': self.samples[:8] or ['(none)'], 'exhaustive': bool(self.exhaustive),
              'bounds_completed': self.bounds_done, 'counters': cov, 'known_findings_hit': known}
         c['evaluations'] = int(cov.get('executions', 0)) or int(sum(cov.values()))
-        c['distinct_nontrivial'] = len(self.distinct)
+        c['distinct_nontrivial'] = int(getattr(self, 'distinct_count', None) or len(self.distinct))
         if self.level == 'model_checking':
             c['states'] = max(len(self.states), 1) if self.states else int(cov.get('states', 0))
             c['transitions'] = int(cov.get('transitions', 0))
